@@ -12,6 +12,7 @@ import (
 	"runtime/pprof"
 	"strconv"
 	"strings"
+	"unicode"
 
 	"github.com/safing/portbase/formats/dsd"
 
@@ -1016,6 +1017,104 @@ func (g *gen) acceptHeader() (string, bool) {
 	return sb.String(), nontrivial
 }
 
+// ---- long Accept headers ----------------------------------------------------------------------------------------------------
+//
+// The model's formatFromAccept is defined over the whole element list (formatFromAccept_spec, accept_named_after_fillers:
+// any number of elements that name nothing may precede the one that decides). The generator above stops at five
+// elements; these headers have 1-40, with the first element that names a supported format (or the first wildcard)
+// at a chosen position, preceded only by media ranges no reading takes for a supported format or a wildcard.
+var fillerTypes = []string{"application", "text", "image", "x-app", "APPLICATION", "font", "video"}
+var fillerSubs = []string{"xml", "html", "webp", "x-yaml", "json5", "vnd.api+json", "jso", "yamll", "msgpac", "octet-stream", "plain",
+	"xhtml+xml", "avif", "apng", "svg+xml", "woff2", "css", "signed-exchange"}
+var fillerParams = []string{"", "", "", ";q=0.9", "; q=0.5", ";charset=utf-8", ";q=0", ";q=1;level=2", ";v=b3"}
+var longSeps = []string{",", ",", ", ", ", ", " , ", ",\t", ",  "}
+
+func (g *gen) fillerElement() string {
+	return fillerTypes[g.rng.Intn(len(fillerTypes))] + "/" + g.randCaseASCII(fillerSubs[g.rng.Intn(len(fillerSubs))]) + fillerParams[g.rng.Intn(len(fillerParams))]
+}
+
+func (g *gen) randCaseASCII(s string) string {
+	switch g.rng.Intn(6) {
+	case 0:
+		return strings.ToUpper(s)
+	case 1:
+		b := []byte(s)
+		for i := range b {
+			if g.rng.Intn(2) == 0 {
+				b[i] = byte(unicode.ToUpper(rune(b[i])))
+			}
+		}
+		return string(b)
+	}
+	return s
+}
+
+// hitElement: a media range that names a supported format (wild = false) or a wildcard, in the spellings the package
+// and RFC 9110 agree on, with or without parameters.
+func (g *gen) hitElement(wild bool) string {
+	par := []string{"", "", ";q=0.9", "; q=0.1", ";charset=utf-8", ";q=1;level=2"}[g.rng.Intn(6)]
+	if wild {
+		return []string{"*/*", "*/*", "*", "text/*", "application/*"}[g.rng.Intn(5)] + par
+	}
+	return []string{"application", "text", "APPLICATION", "x-app"}[g.rng.Intn(4)] + "/" + g.randCaseASCII(goodSubs[g.rng.Intn(len(goodSubs))]) + par
+}
+
+// longAccept: n elements; elements 0..p-1 name nothing, element p is the first that names a supported format / is a
+// wildcard (p >= n: none does), the elements after p are anything (fillers, further formats, wildcards; with
+// dirty = true also everything the media-range grammar above produces). Printable ASCII + HTAB only unless dirty.
+func (g *gen) longAccept(n, p int, wild, dirty bool) string {
+	var sb strings.Builder
+	sep := longSeps[g.rng.Intn(len(longSeps))]
+	mixed := g.rng.Intn(3) == 0
+	for i := 0; i < n; i++ {
+		if i > 0 {
+			if mixed {
+				sep = longSeps[g.rng.Intn(len(longSeps))]
+			}
+			sb.WriteString(sep)
+		}
+		switch {
+		case i < p:
+			sb.WriteString(g.fillerElement())
+		case i == p:
+			sb.WriteString(g.hitElement(wild))
+		default:
+			switch k := g.rng.Intn(6); {
+			case dirty && k == 0:
+				mr, _ := g.mediaRange()
+				sb.WriteString(mr)
+			case k == 1:
+				sb.WriteString(g.hitElement(g.rng.Intn(2) == 0))
+			default:
+				sb.WriteString(g.fillerElement())
+			}
+		}
+	}
+	g.r.Count(fmt.Sprintf("accept-long:elements:%d", n))
+	switch {
+	case p >= n:
+		g.r.Count("accept-long:first-hit:none")
+	case wild:
+		g.r.Count(fmt.Sprintf("accept-long:first-wildcard-at:%d", p))
+	default:
+		g.r.Count(fmt.Sprintf("accept-long:first-named-at:%d", p))
+	}
+	return sb.String()
+}
+
+// randLongAccept: 1-40 elements (short and browser-sized lists more often), first hit anywhere or nowhere.
+func (g *gen) randLongAccept(dirty bool) string {
+	n := 1 + g.rng.Intn(40)
+	if g.rng.Intn(2) == 0 {
+		n = 6 + g.rng.Intn(12)
+	}
+	p := g.rng.Intn(n + 1)
+	if g.rng.Intn(3) == 0 {
+		p = n - 1 // the last element decides
+	}
+	return g.longAccept(n, p, g.rng.Intn(3) == 0, dirty)
+}
+
 // noPreference: Accept values that leave the choice to the server.
 var noPreference = []string{"", "*/*", "*", "text/*", "image/webp, */*;q=0.8", "*/*;q=0.1", " */* "}
 
@@ -1346,6 +1445,9 @@ func (g *gen) heldCase(noModel bool) {
 			if g.rng.Intn(2) == 0 {
 				a = fixedAccepts[g.rng.Intn(len(fixedAccepts))]
 			}
+			if g.rng.Intn(4) == 0 {
+				a = g.randLongAccept(false)
+			}
 			lines = append(lines, "mimedump "+hexs(a))
 			if g.rng.Intn(2) == 0 {
 				lines = append(lines, "mimeload @t @m")
@@ -1397,6 +1499,9 @@ func (g *gen) parCase() {
 			if g.rng.Intn(2) == 0 {
 				a = "application/" + goodSubs[g.rng.Intn(4)]
 			}
+			if g.rng.Intn(4) == 0 {
+				a = g.randLongAccept(false)
+			}
 			items = append(items, "m"+hexs(a))
 		}
 	}
@@ -1431,6 +1536,37 @@ func generate(r *hxlib.Run, emit func(hxlib.Case)) {
 		g.httpCase("S", esc, fixedAccepts[:8], false, "corpus-http")
 	}
 
+	// (0a) long Accept headers, swept: every list length 1..40 × every position of the first element that names a
+	// supported format or of the first wildcard (alternating) through FormatFromAccept, incl. no such element; every
+	// position 0..39 through the response, MimeDump and wire paths, once named and once wildcard
+	{
+		var lines []string
+		for n := 1; n <= 40; n++ {
+			for p := 0; p <= n; p++ {
+				lines = append(lines, "ffa "+hexs(g.longAccept(n, p, (n+p)%2 == 1, false)))
+				if len(lines) >= 16 {
+					emit(hxlib.Case{Lines: lines, NonTrivial: true, Kind: "accept-long"})
+					lines = nil
+				}
+			}
+		}
+		if len(lines) > 0 {
+			emit(hxlib.Case{Lines: lines, NonTrivial: true, Kind: "accept-long"})
+		}
+		for _, wild := range []bool{false, true} {
+			var accepts []string
+			for p := 0; p < 40; p++ {
+				accepts = append(accepts, g.longAccept(p+1+g.rng.Intn(3), p, wild, false))
+			}
+			g.httpCase("S", &Subject{S: "long accept", Sa: []string{"a"}}, accepts, false, "http-long-accept")
+			wl := []string{"val S " + hxlib.Hex(valueJSON("S", &Subject{S: "long accept"}))}
+			for p := 0; p < 40; p++ {
+				wl = append(wl, "wirea "+hexs(g.longAccept(p+1+g.rng.Intn(3), p, wild, false)))
+			}
+			g.emit(hxlib.Case{Lines: wl, NonTrivial: true, Kind: "http-wire-long-accept:S", NoModel: true})
+		}
+	}
+
 	// (0b) history: results kept while other dumps / loads / assignments of the package variables happen
 	for i := 0; i < r.Budget(500, 6000); i++ {
 		g.heldCase(false)
@@ -1460,6 +1596,7 @@ func generate(r *hxlib.Run, emit func(hxlib.Case)) {
 			a, _ := g.acceptHeader()
 			accepts = append(accepts, a)
 		}
+		accepts = append(accepts, g.randLongAccept(false), g.randLongAccept(true))
 		g.httpCase(tag, v, accepts, false, "http")
 	}
 	for i := 0; i < r.Budget(200, 3000); i++ {
@@ -1468,6 +1605,7 @@ func generate(r *hxlib.Run, emit func(hxlib.Case)) {
 			a, _ := g.acceptHeader()
 			accepts = append(accepts, a)
 		}
+		accepts = append(accepts, g.randLongAccept(false))
 		g.httpCase("S", genSubject(g.rng, 5), accepts, true, "http-maps")
 	}
 	// (3b) the same cycle over a real HTTP connection (httptest.Server), implementation + monitor only
@@ -1485,6 +1623,7 @@ func generate(r *hxlib.Run, emit func(hxlib.Case)) {
 			}
 			lines = append(lines, "wirea "+hexs(a))
 		}
+		lines = append(lines, "wirea "+hexs(g.randLongAccept(false)))
 		g.emit(hxlib.Case{Lines: lines, NonTrivial: tag != "U", Kind: "http-wire:" + tag, NoModel: true})
 	}
 	// (4) FormatFromAccept alone, in bulk
@@ -1504,6 +1643,9 @@ func generate(r *hxlib.Run, emit func(hxlib.Case)) {
 		flush()
 		for i := 0; i < r.Budget(100000, 2000000); i++ {
 			a, n := g.acceptHeader()
+			if i%6 == 5 {
+				a, n = g.randLongAccept(i%12 == 5), true
+			}
 			lines = append(lines, "ffa "+hexs(a))
 			nt = nt || n
 			if len(lines) >= 16 {
@@ -1548,7 +1690,7 @@ func main() {
 	debug.SetGCPercent(400) // DumpAndCompress allocates a fresh BestCompression writer (> 1 MB) per call
 	hxlib.Main(&hxlib.Harness{
 		Prop:     "C09",
-		Rule:     "a case is one schema value (Subject: nested structs, all integer widths within ±(2^53-1), ASCII/non-ASCII/YAML-hostile strings, byte and string slices, maps, pointers, nil and empty; GSubject: gencode; []byte: RAW; USubject: unmarshalable) with the real codecs' results as fact lines, followed by (roundtrip) Dump/DumpIndent/DumpAndCompress for every format id in {AUTO,RAW,CBOR,GenCode,JSON,MsgPack,YAML} + one unsupported id x compression {AUTO,GZIP,unsupported} each followed by Load/LoadAsFormat/DecompressAndLoad, or (http) DumpToHTTPRequest→LoadFromHTTPRequest→DumpToHTTPResponse→LoadFromHTTPResponse for every format id and MimeDump/MimeLoad/DumpToHTTPResponse for Accept headers from a media-range grammar (types, supported/unsupported/wildcard subtypes, parameters, q-values, ASCII and Unicode whitespace, case incl. KELVIN SIGN, garbage), or (http-wire) the same request/response cycle through a real httptest.Server connection, or (accept) FormatFromAccept on 16 such headers, or (malformed/totality) Load/DecompressAndLoad/LoadAsFormat/MimeLoad on truncations, bit flips, identifier rewrites, two-byte identifiers, gzip wrappers and random bytes, or (held) 2-6 values of one type (a value, a same-size variant, other sizes, an equal copy) dumped in mixed order through Dump/DumpIndent/DumpAndCompress/MimeDump/DumpToHTTPRequest/DumpToHTTPResponse with loads in between, every result kept as returned and loaded again later (`held`, at least twice), or (concurrent) 2-4 goroutines dumping their own values 4-15 times through 2-4 of these functions at once, all results loaded after the join. About a third of the roundtrip/http/http-wire/held/concurrent cases assign dsd.DefaultSerializationFormat (JSON, CBOR, MsgPack, YAML, GenCode, RAW, rarely a value that is no format) and dsd.DefaultCompressionFormat (`cfg` lines, also in the middle of a case); every http case sends the 'no preference' Accept values (missing header, empty, */*, *, text/*, lists with q-values). One string in eight is composed from a dictionary of escape look-alikes (backslash + u003c/u0026/u2028/ud800, JSON/YAML escapes, HTML entities, YAML indicators, control characters). Non-trivial: every case except those on the unmarshalable type; accept cases only if a header has >= 2 elements or a parameter. Distinct by the hash of the op lines.",
+		Rule:     "a case is one schema value (Subject: nested structs, all integer widths within ±(2^53-1), ASCII/non-ASCII/YAML-hostile strings, byte and string slices, maps, pointers, nil and empty; GSubject: gencode; []byte: RAW; USubject: unmarshalable) with the real codecs' results as fact lines, followed by (roundtrip) Dump/DumpIndent/DumpAndCompress for every format id in {AUTO,RAW,CBOR,GenCode,JSON,MsgPack,YAML} + one unsupported id x compression {AUTO,GZIP,unsupported} each followed by Load/LoadAsFormat/DecompressAndLoad, or (http) DumpToHTTPRequest→LoadFromHTTPRequest→DumpToHTTPResponse→LoadFromHTTPResponse for every format id and MimeDump/MimeLoad/DumpToHTTPResponse for Accept headers from a media-range grammar (types, supported/unsupported/wildcard subtypes, parameters, q-values, ASCII and Unicode whitespace, case incl. KELVIN SIGN, garbage), or (http-wire) the same request/response cycle through a real httptest.Server connection, or (accept) FormatFromAccept on 16 such headers, or (accept-long / http-long-accept / http-wire-long-accept) Accept headers of 1-40 elements in which the first element that names a supported format, or the first wildcard, stands at a chosen position behind media ranges that name nothing (unsupported types with q-values / parameters / case and separator variants): every length 1..40 x every position through FormatFromAccept, every position 0..39 through DumpToHTTPResponse, MimeDump and the real connection, and random ones among the headers of every http, http-wire, held and concurrent case and as every sixth header of the bulk stream, or (malformed/totality) Load/DecompressAndLoad/LoadAsFormat/MimeLoad on truncations, bit flips, identifier rewrites, two-byte identifiers, gzip wrappers and random bytes, or (held) 2-6 values of one type (a value, a same-size variant, other sizes, an equal copy) dumped in mixed order through Dump/DumpIndent/DumpAndCompress/MimeDump/DumpToHTTPRequest/DumpToHTTPResponse with loads in between, every result kept as returned and loaded again later (`held`, at least twice), or (concurrent) 2-4 goroutines dumping their own values 4-15 times through 2-4 of these functions at once, all results loaded after the join. About a third of the roundtrip/http/http-wire/held/concurrent cases assign dsd.DefaultSerializationFormat (JSON, CBOR, MsgPack, YAML, GenCode, RAW, rarely a value that is no format) and dsd.DefaultCompressionFormat (`cfg` lines, also in the middle of a case); every http case sends the 'no preference' Accept values (missing header, empty, */*, *, text/*, lists with q-values). One string in eight is composed from a dictionary of escape look-alikes (backslash + u003c/u0026/u2028/ud800, JSON/YAML escapes, HTML entities, YAML indicators, control characters). Non-trivial: every case except those on the unmarshalable type; accept cases only if a header has >= 2 elements or a parameter. Distinct by the hash of the op lines.",
 		Generate: generate,
 		NewExec:  newExec,
 		Monitor:  monitor,
